@@ -448,6 +448,40 @@ func sameContent(got, want map[int]int) bool {
 
 func sortedAsc(keys []string) bool { return sort.StringsAreSorted(keys) }
 
+// concurrentFirstReads: two goroutines read every key of the freshly opened
+// database while the first file read is held; both must see the restored contents.
+func (w *world) concurrentFirstReads(keys []int, want map[int]int) *mbt.Violation {
+	var first atomic.Bool
+	release := make(chan struct{})
+	w.view.BeforeRead = func(string) {
+		if first.CompareAndSwap(false, true) {
+			<-release
+		}
+	}
+	defer func() { w.view.BeforeRead = nil }()
+	w.passReads.Store(true)
+	defer w.passReads.Store(false)
+	out := make(chan readRes, 2)
+	db := w.db
+	go func() { out <- w.getAll(db, keys) }()
+	time.Sleep(300 * time.Microsecond)
+	go func() { out <- w.getAll(db, keys) }()
+	time.Sleep(700 * time.Microsecond)
+	close(release)
+	for i := 0; i < 2; i++ {
+		r := <-out
+		if r.pan != nil || r.err != nil {
+			return &mbt.Violation{Property: "C08", What: fmt.Sprintf("concurrent first reads of the re-opened database fail: %v %v", r.pan, r.err)}
+		}
+		for _, k := range keys {
+			if r.vals[k] != want[k] {
+				return &mbt.Violation{Property: "C08", What: "concurrent first reads of the re-opened database return different contents", Expected: want, Observed: r.vals}
+			}
+		}
+	}
+	return nil
+}
+
 // C08 -------------------------------------------------------------------------
 
 type docT struct {
@@ -514,6 +548,7 @@ func (w *world) checkHandles(res *mbt.Result, bi, si int) *mbt.Violation {
 			// at a gate: the copy gets a memtable large enough never to rotate
 			o := w.opts(v)
 			o.MemTableSize = 1 << 20
+			o.MaxWALSize = 0
 			db = dkv.New(o)
 			w.ignore(db)
 			if err := db.Start([]recovery.CheckpointHandle{w.handles[id]}); err != nil {
@@ -899,6 +934,13 @@ func replay(bi int, beh []mbt.Step, in *mbt.Input, res *mbt.Result) {
 				return
 			}
 			res.Count("reopens", 1)
+			// the first reads of the re-opened tables may come from two goroutines at once (the event loop's Get
+			// and a background compaction's scan): hold the first reader inside its first file read, start a second
+			if v := w.concurrentFirstReads(allKeys, oracle); v != nil {
+				v.Behaviour, v.Step = bi, si
+				fail(v)
+				return
+			}
 		default:
 			machinery(si, fmt.Errorf("unknown action %q", a))
 			return
